@@ -142,7 +142,46 @@ def decode_value(v: Any, objs: dict) -> Any:
             return np.array(['abc'] * n, dtype=a['dtype']).reshape(a['shape'])
         return (np.arange(n) % 2).astype(a['dtype']).reshape(a['shape'])
     if '$datadict' in v:
-        return {k: decode_value(x, objs) for k, x in v['$datadict'].items()}
+        out = {k: decode_value(x, objs) for k, x in v['$datadict'].items()}
+        if v.get('intkey'):
+            import numpy as np
+            out[5] = np.arange(3.0)
+        return out
+    if '$tolist' in v:
+        return make_array(v['$tolist']).tolist()
+    if '$bad' in v:
+        import numpy as np
+        how = v['$bad']
+        if how == 'int':
+            return 5
+        if how == 'txt-path':
+            p = os.path.join(scratch_dir(), 'not-hdf5.txt')
+            open(p, 'w').write('x')
+            return p
+        if how == 'bytes-path':
+            return os.path.join(scratch_dir(), 'nope.h5').encode()
+        if how == 'plain-ndarray':
+            return np.arange(3.0)
+        if how == 'struct-2d':
+            return np.zeros((3, 1), dtype=[('CHAN-A', 'f8'), ('CHAN-B', 'u2', (2,))])
+        if how == 'list-of-arrays':
+            return [np.arange(3.0), np.arange(6, dtype=np.uint16).reshape(3, 2)]
+        if how == 'tuple-pairs':
+            return (('CHAN-A', np.arange(3.0)), ('CHAN-B', np.arange(6, dtype=np.uint16).reshape(3, 2)))
+        if how == 'h5-is-a-directory':
+            p = os.path.join(scratch_dir(), 'a-directory.h5')
+            os.makedirs(p, exist_ok=True)
+            return p
+        if how == 'h5-group-for-dataset':
+            import h5py
+            p = os.path.join(scratch_dir(), 'group-for-dataset.h5')
+            if os.path.exists(p):
+                os.remove(p)
+            with h5py.File(p, 'w') as f:
+                f.create_group('/CHAN-A')
+                f.create_dataset('/CHAN-B', data=np.arange(6, dtype=np.uint16).reshape(3, 2))
+            return p
+        raise ValueError(how)
     if '$struct' in v:
         import numpy as np
         fields = [(n, make_array(a)) for n, a in v['$struct']['fields']]
